@@ -7,8 +7,9 @@ PROP = {
     "technique": "property-based testing (rapid): generated access lists x requests against a reference decision model "
                  "written from the statement; socket-level end-to-end layer with side-effect snapshots",
     "level_text": "TestVFC03Decision: lists (IPs, CIDRs of many prefix lengths incl. /0 /31 /32 /127 /128, ClientIDs, "
-                  "blocked-host patterns) installed through the production Prepare and, in half of the cases, replaced "
-                  "through the POST /control/access/set handler; requests over all six protocols (TLS/QUIC/DoH doubles "
+                  "blocked-host patterns) installed through the production Prepare and then replaced up to two times "
+                  "through the POST /control/access/set handler while the same server keeps serving (clients seen "
+                  "before a change come back after it); requests over all six protocols (TLS/QUIC/DoH doubles "
                   "carrying the ClientID in SNI or path, zoned link-local addresses) go through HandleBefore; the "
                   "outcome must equal the model: admitted => nil; excluded => plain error (no response) for "
                   "UDP/DNSCrypt, BeforeRequestError carrying a bare REFUSED for the others. TestVFC03Wire: a started "
